@@ -1,11 +1,14 @@
 package c05
 
 import (
+	"context"
 	"fmt"
+	"path"
 	"strings"
 	"sync"
 	"testing"
 
+	"github.com/tikv/pd/server/tso"
 	"pdverif/vkit"
 )
 
@@ -83,4 +86,90 @@ func TestFinding_concurrent_global_same_timestamp(t *testing.T) {
 		}
 	}
 	vkit.Finding(t, keyGlobalConcurrent, reproduced, detail)
+}
+
+const (
+	keySlashName      = "C05/dc-location-name-with-slash-shares-suffix"
+	keyNewLeaderPlain = "C05/new-pd-leader-serves-unsynchronized-global-before-first-dc-check"
+)
+
+// TestFinding_dc_location_name_with_slash: getDCLocationSuffixMapFromEtcd (allocator_manager.go) keys the persisted
+// suffixes by the LAST path segment of the etcd key. The zone label of a PD is not validated, so "us/east" is a legal
+// dc-location; its key <root>/local-tso-suffix/us/east is read back as dc-location "east", and a dc-location really
+// called "east" that joins later is handed the same suffix (nothing is written for it).
+func TestFinding_dc_location_name_with_slash(t *testing.T) {
+	sl, f, err := getSSlots()
+	if err != nil {
+		vkit.Finding(t, keySlashName, false, "inconclusive (fixture)")
+		return
+	}
+	w := &sworld{f: f, sl: sl, root: f.Root(), leader: -1, dcOf: map[uint64]string{}, hist: map[string]int32{}, values: map[uint64]string{}}
+	w.nodes = []*snode{w.newNode(0), w.newNode(1)}
+	defer func() {
+		w.resign()
+		quiesce()
+		f.DeleteRaw(w.root, true)
+	}()
+	w.ctx, w.cancel = context.WithCancel(context.Background())
+	defer w.cancel()
+	w.setLeader(0)
+	if w.incon {
+		vkit.Finding(t, keySlashName, false, "inconclusive (election)")
+		return
+	}
+	e1 := w.nodes[0].am.SetLocalTSOConfig("us/east")
+	quiesce()
+	w.nodes[0].am.ClusterDCLocationChecker()
+	e2 := w.nodes[1].am.SetLocalTSOConfig("east")
+	quiesce()
+	w.nodes[0].am.ClusterDCLocationChecker()
+	a, okA := w.nodes[0].am.GetDCLocationInfo("us/east")
+	b, okB := w.nodes[0].am.GetDCLocationInfo("east")
+	persisted, _ := w.etcdSuffixes()
+	rep := e1 == nil && e2 == nil && okA && okB && a.Suffix > 0 && a.Suffix == b.Suffix
+	vkit.Finding(t, keySlashName, rep, fmt.Sprintf("join errors %v/%v; the PD leader reports suffix %d for us/east and %d for east; persisted suffix keys: %v", e1, e2, a.Suffix, b.Suffix, persisted))
+}
+
+// TestFinding_new_pd_leader_plain_global: GenerateTSO takes the unsynchronized path while the manager's dc-location map
+// is empty. A member whose map was never filled (it started while no PD leader was known: the checker returns at once)
+// and that wins the election serves global timestamps as soon as the global allocator is initialised; campaignLeader
+// (server/server.go) starts the first ClusterDCLocationChecker only later, after EnableLeader. Here: a dc-location is in
+// use (its key is in etcd), the member campaigns and initialises the global allocator the way campaignLeader does, and
+// a global request is answered without any synchronisation (0 suffix bits) before the first check has run.
+func TestFinding_new_pd_leader_plain_global(t *testing.T) {
+	sl, f, err := getSSlots()
+	if err != nil {
+		vkit.Finding(t, keyNewLeaderPlain, false, "inconclusive (fixture)")
+		return
+	}
+	w := &sworld{f: f, sl: sl, root: f.Root(), leader: -1, dcOf: map[uint64]string{}, hist: map[string]int32{}, values: map[uint64]string{}}
+	n := w.newNode(0)
+	defer func() {
+		n.mb.ResetLeader()
+		quiesce()
+		f.DeleteRaw(w.root, true)
+	}()
+	ctx, cancel := context.WithCancel(context.Background())
+	defer cancel()
+	n.am.SetUpAllocator(ctx, tso.GlobalDCLocation, n.mb.GetLeadership())
+	// another member serves dc-9 (registered, suffix persisted by the previous PD leader)
+	if f.PutRaw(path.Join(w.root, "dc-location", "200"), "dc-9") != nil || f.PutRaw(path.Join(w.root, "local-tso-suffix", "dc-9"), "1") != nil {
+		vkit.Finding(t, keyNewLeaderPlain, false, "inconclusive (fixture)")
+		return
+	}
+	if err := n.mb.CampaignLeader(600); err != nil {
+		vkit.Finding(t, keyNewLeaderPlain, false, "inconclusive (election)")
+		return
+	}
+	al, _ := n.am.GetAllocator(tso.GlobalDCLocation)
+	if al == nil || al.Initialize(0) != nil {
+		vkit.Finding(t, keyNewLeaderPlain, false, "inconclusive (global allocator)")
+		return
+	}
+	ts, gerr := n.am.HandleTSORequest(tso.GlobalDCLocation, 1)
+	n.mb.EnableLeader()
+	n.am.ClusterDCLocationChecker()
+	_, after := n.am.HandleTSORequest(tso.GlobalDCLocation, 1)
+	rep := gerr == nil && ts.GetPhysical() > 0
+	vkit.Finding(t, keyNewLeaderPlain, rep, fmt.Sprintf("before the first dc-location check the global request was answered (err %v, physical %d, logical %d, %d suffix bits) although dc-9 is in use; after the check the same request is synchronised/refused (err %v)", gerr, ts.GetPhysical(), ts.GetLogical(), ts.GetSuffixBits(), after))
 }
